@@ -89,3 +89,13 @@ macro_rules! parse_u64 {
         u64::from_ne_bytes($input[$start .. $start+8].try_into().unwrap())
     }
 }
+
+// Return a "too short" JSON error from the enclosing function unless `$input[$pos]` exists.
+// (A plain `if`, so that the common in-bounds case costs one comparison.)
+macro_rules! need_input {
+    ($input:expr, $pos:expr) => {
+        if $pos >= $input.len() {
+            return Err($crate::error::InnerError::JsonBad("Too short", $pos).into());
+        }
+    };
+}
